@@ -155,7 +155,7 @@ def run(ctx, out):
         calls = ["new"]
         nb = 0
         for call, kind, reply in hist:
-            if kind == "0622" and reply and reply[0][:2] != b"\x06\x1e" and G.status_field(reply[-2] if len(reply) > 1 else reply[0], 0x87, 2) is not None:
+            if kind == "0622" and reply and reply[0][:2] != b"\x06\x1e" and reply[-1][:2] != b"\x06\x1e" and G.status_field(reply[-2] if len(reply) > 1 else reply[0], 0x87, 2) is not None:
                 # give every successful reservation its own receipt number
                 r = receipts[nb % len(receipts)]; nb += 1
                 two = sum(1 for x in reply if x[:2] == b"\x04\x0f" and G.status_field(x, 0x87, 2) is not None) >= 2
